@@ -295,11 +295,11 @@ theorem tetra_face_cross (v0 v1 v2 v3 S X : V3 ℝ) (f : Tri ℝ) (k j1 j2 j3 : 
 
 /-- **the ray from a point outside to a point strictly inside a tetrahedron crosses exactly one face** (as
 `lines_end_in_trimesh` counts crossings), if it does not come within the pass-through tolerance of an edge -/
-theorem linesEndCore_tetra_inside (v0 v1 v2 v3 S X : V3 ℝ) (hd : 0 < tdet v0 v1 v2 v3)
+theorem crossCount_tetra_inside (v0 v1 v2 v3 S X : V3 ℝ) (hd : 0 < tdet v0 v1 v2 v3)
     (hx : ∀ k, 0 < bary v0 v1 v2 v3 X k) (hs : ∃ k, bary v0 v1 v2 v3 S k < 0)
     (hSv : S ≠ v1 ∧ S ≠ v2 ∧ S ≠ v3)
     (hgen : ∀ f ∈ tetraFaces v0 v1 v2 v3, rayNearEdge S X f = false) :
-    linesEndCore S X (tetraFaces v0 v1 v2 v3) = true := by
+    ((tetraFaces v0 v1 v2 v3).map (faceTest S X)).countP (·.1) = 1 := by
   obtain ⟨hS1, hS2, hS3⟩ := hSv
   have hg3 := hgen (v0, v2, v1) (by simp [tetraFaces])
   have hg2 := hgen (v0, v1, v3) (by simp [tetraFaces])
@@ -350,8 +350,16 @@ theorem linesEndCore_tetra_inside (v0 v1 v2 v3 S X : V3 ℝ) (hd : 0 < tdet v0 v
     linarith [hall 0, hall 1, hall 2, hall 3]
   obtain ⟨k0, hk0⟩ := strict_extreme_iff_argmin _ H hneg hpos
   simp only [hk0] at f3 f2 f0 f1
-  simp only [linesEndCore, tetraFaces, List.map_cons, List.map_nil, List.countP_cons, List.countP_nil, f3, f2, f0, f1]
+  simp only [tetraFaces, List.map_cons, List.map_nil, List.countP_cons, List.countP_nil, f3, f2, f0, f1]
   fin_cases k0 <;> simp
+
+theorem linesEndCore_tetra_inside (v0 v1 v2 v3 S X : V3 ℝ) (hd : 0 < tdet v0 v1 v2 v3)
+    (hx : ∀ k, 0 < bary v0 v1 v2 v3 X k) (hs : ∃ k, bary v0 v1 v2 v3 S k < 0)
+    (hSv : S ≠ v1 ∧ S ≠ v2 ∧ S ≠ v3)
+    (hgen : ∀ f ∈ tetraFaces v0 v1 v2 v3, rayNearEdge S X f = false) :
+    linesEndCore S X (tetraFaces v0 v1 v2 v3) = true := by
+  simp only [linesEndCore, crossCount_tetra_inside v0 v1 v2 v3 S X hd hx hs hSv hgen]
+  simp
 
 theorem foldl_vMin_le (rest : List (V3 ℝ)) (a : V3 ℝ) :
     ∀ v ∈ a :: rest, (rest.foldl vMin a).x ≤ v.x ∧ (rest.foldl vMin a).y ≤ v.y ∧ (rest.foldl vMin a).z ≤ v.z := by
@@ -452,9 +460,14 @@ theorem vd_ne_of_x_lt (a b : V3 ℝ) (s : ℝ) (hs : 0 < s) (h : a.x < b.x) : vd
   have := (div_left_inj' hs.ne').mp this
   linarith
 
-theorem maskInsideTrimesh_tetra_inside (v0 v1 v2 v3 X : V3 ℝ) (hd : 0 < tdet v0 v1 v2 v3)
+/-- a point strictly inside a tetrahedron: it passes the bounding-box pre-filter, the mesh size is positive, and its (generic) test ray,
+in units of the mesh size, crosses exactly one face -/
+theorem tetra_inside_count (v0 v1 v2 v3 X : V3 ℝ) (hd : 0 < tdet v0 v1 v2 v3)
     (hx : ∀ k, 0 < bary v0 v1 v2 v3 X k) (hgen : RayGeneric (tetraFaces v0 v1 v2 v3) X) :
-    maskInsideTrimesh (tetraFaces v0 v1 v2 v3) X = true := by
+    insideBoxV (meshVerts (tetraFaces v0 v1 v2 v3)) X = true ∧ 0 < vertsSize (meshVerts (tetraFaces v0 v1 v2 v3)) ∧
+    (((tetraFaces v0 v1 v2 v3).map (triDiv (vertsSize (meshVerts (tetraFaces v0 v1 v2 v3))))).map
+      (faceTest (vd (startPointOutside (meshVerts (tetraFaces v0 v1 v2 v3))) (vertsSize (meshVerts (tetraFaces v0 v1 v2 v3))))
+        (vd X (vertsSize (meshVerts (tetraFaces v0 v1 v2 v3)))))).countP (·.1) = 1 := by
   have hm0 : v0 ∈ meshVerts (tetraFaces v0 v1 v2 v3) := by simp [meshVerts, tetraFaces, triVerts]
   have hm1 : v1 ∈ meshVerts (tetraFaces v0 v1 v2 v3) := by simp [meshVerts, tetraFaces, triVerts]
   have hm2 : v2 ∈ meshVerts (tetraFaces v0 v1 v2 v3) := by simp [meshVerts, tetraFaces, triVerts]
@@ -515,10 +528,9 @@ theorem maskInsideTrimesh_tetra_inside (v0 v1 v2 v3 X : V3 ℝ) (hd : 0 < tdet v
     linarith
   -- assemble
   have hs3 : 0 < vertsSize verts ^ 3 := by positivity
-  simp only [maskInsideTrimesh, hverts, hbox, if_true, linesEndInTrimesh, meshSize, lt_real, n, ofNat_real, Nat.cast_zero,
-    hsize, decide_true, tetraFaces_triDiv]
-  rw [tetraFaces_triDiv] at hgen
-  apply linesEndCore_tetra_inside
+  refine ⟨hbox, hsize, ?_⟩
+  rw [tetraFaces_triDiv] at hgen ⊢
+  apply crossCount_tetra_inside
   · rw [tdet_vd _ _ _ _ _ hsize.ne']; exact div_pos hd hs3
   · intro k; rw [bary_vd _ _ _ _ _ _ hsize.ne']; exact div_pos (hx k) hs3
   · obtain ⟨k, hk⟩ := hSneg
@@ -526,6 +538,14 @@ theorem maskInsideTrimesh_tetra_inside (v0 v1 v2 v3 X : V3 ℝ) (hd : 0 < tdet v
   · exact ⟨vd_ne_of_x_lt _ _ _ hsize (by linarith), vd_ne_of_x_lt _ _ _ hsize (by linarith),
       vd_ne_of_x_lt _ _ _ hsize (by linarith)⟩
   · exact hgen
+
+theorem maskInsideTrimesh_tetra_inside (v0 v1 v2 v3 X : V3 ℝ) (hd : 0 < tdet v0 v1 v2 v3)
+    (hx : ∀ k, 0 < bary v0 v1 v2 v3 X k) (hgen : RayGeneric (tetraFaces v0 v1 v2 v3) X) :
+    maskInsideTrimesh (tetraFaces v0 v1 v2 v3) X = true := by
+  obtain ⟨hbox, hsize, hcnt⟩ := tetra_inside_count v0 v1 v2 v3 X hd hx hgen
+  simp only [maskInsideTrimesh, hbox, if_true, linesEndInTrimesh, meshSize, lt_real, n, ofNat_real, Nat.cast_zero,
+    hsize, decide_true, linesEndCore, hcnt]
+  simp
 
 /-- strictly positive barycentric numerators: `point_inside` of the Tetrahedron class says "inside" -/
 theorem tetraInside_of_bary_pos (v0 v1 v2 v3 X : V3 ℝ) (hd : 0 < tdet v0 v1 v2 v3)
